@@ -9,6 +9,7 @@ package c18
 
 import (
 	"fmt"
+	"os"
 	"sort"
 	"strings"
 	"sync"
@@ -209,7 +210,11 @@ func TestCheck(t *testing.T) {
 	}
 	var work []func()
 	var names []string
+	only := os.Getenv("C18_ONLY") // development aid: run the sections whose name contains this
 	for _, s := range sections {
+		if only != "" && !strings.Contains(s.name, only) {
+			continue
+		}
 		sh := s.shards(c)
 		for range sh {
 			names = append(names, s.name)
@@ -221,7 +226,9 @@ func TestCheck(t *testing.T) {
 	})
 	// the sections that depend on the process-global address version byte, once per
 	// non-default version, each in its own phase after the common one has been joined.
-	c.prefixPhases()
+	if only == "" {
+		c.prefixPhases()
+	}
 	nfail := c.flush()
 	cov := map[string]any{}
 	var inputs, nontriv, evals, calls int64
@@ -235,7 +242,7 @@ func TestCheck(t *testing.T) {
 		calls += st.Calls.Get()
 		per[s.name] = map[string]int64{"inputs": st.Inputs.Get(), "nontrivial": st.Nontrivial.Get(), "oracle_evaluations": st.Evals.Get(), "calls_into_repo": st.Calls.Get()}
 		rules = append(rules, s.name+": "+s.rule)
-		if st.Inputs.Get() == 0 && !r.IsCapped() {
+		if st.Inputs.Get() == 0 && !r.IsCapped() && only == "" {
 			r.Violation("harness:section-did-not-run:"+s.name, s.name)
 		}
 	}
@@ -247,6 +254,7 @@ func TestCheck(t *testing.T) {
 	cov["rule"] = "input-exhaustive per section; a state is one distinct input of one section, a transition one call into the packages under test; " + strings.Join(rules, " | ")
 	cov["sections"] = per
 	c.prefixCoverage(cov)
+	emitAnyCoverage(c, cov)
 	prio := map[string]int{"sign-verify": 1, "fixedn-values": 2, "bigint-int": 3, "base58-bytes": 4, "script-multisig": 5, "nep2": 6, "nep2-unicode": 7}
 	rk := func(i int) string {
 		sec := c.samples[i].(map[string]string)["section"]
@@ -273,6 +281,7 @@ func TestCheck(t *testing.T) {
 		"every signature equals the RFC 6979 signature computed by the Go standard library (independent implementation)",
 		"mr-tron/base58 rejects the empty string, so Decode(Encode([]byte{})) is not demanded of the raw codec",
 		"sections prefix-*: address.Prefix (process-global) is set between two joined parallel phases, one phase per non-default version byte, and restored by a defer; under NEO2Prefix the key's verification script is required to be the NEO2 one (PUSHBYTES33 key CHECKSIG) that publickey.go switches to; what NEP2Decrypt does with a string made under another address version is counted, not judged",
+		"section emit-any: kinds no doc comment promises (uintptr, big.Int by value, named integer types; int8/int16/int32/uint for stackitem.TryMake) may be refused or must come out exact; how many (path, kind) pairs refuse is counted (emit_any_refusals_of_undocumented_kinds_or_too_big_values); floats are not in the menu (TryMake truncates them through its int64 conversion: not judged); a path built on a root path (emit.Any, NewParameterFromValue, stackitem.TryMake) that already failed for the input is skipped and the failure reported once at the root; actor.Make*Call / neotest invocation helpers build their scripts with smartcontract.CreateCallScript, which is driven directly",
 		"scrypt cost limits NEP-2 to 2-3 keys; CreateMultiSigRedeemScript accepts n > 1024 keys (parser refuses them): not examined beyond n = 1024",
 	}
 	r.Finish(cov, []string{
